@@ -6,11 +6,19 @@ Three-way comparison per case (operator tree, function, exponent, algorithm obje
           the returned operator (which rule fires at which node, pow's shortcut decision, raising nodes) and,
           on the exact-arithmetic subset, the exact value; for the other cases the plan is evaluated in
           float64 by `eval_plan` with the base cases taken from numpy (the parameters of the theorems:
-          eigh / eig / inverse), including the zero-eigenvalue mask of the Krylov operators;
+          eigh / eig / inverse); Krylov base cases are f(A) by numpy's eig there (SPEC-ONLY value: in exact arithmetic a
+          complete Krylov factorisation returns exactly f(A) v -- KrylovCompose.{lanczos,arnoldi}_unary_exact -- and the
+          code's `_weighted` guard of /repo 25c506e does not change the value), except for polynomial f on exact payloads,
+          where the Lean driver evaluates the exact Krylov model (stream krylov-exact);
   spec  — f of the dense matrix: scipy.linalg expm / logm / sqrtm / fractional_matrix_power,
           np.linalg.matrix_power / inv for integer exponents (exact ℚ[i] arithmetic on the exact subset).
 Spectra are controlled by the generator (positive definite, right half plane with well-conditioned eigenvectors,
 singular PSD, complex), so a relative tolerance of 1e-7 (1e-5 on the Krylov paths) separates rounding from defects.
+
+Early-termination stream (`gen_early_cases`, cls "early", key "stream"): explicit Arnoldi(max_iters, tol) / Lanczos(max_iters, tol)
+objects on inputs whose Krylov space is exhausted after m < n steps (few distinct eigenvalues; start vectors in a 2-3 dimensional
+invariant subspace; batches that stop at the same step, at different steps, and with exactly zero padding), same expected value
+f(A) X, same tolerance.  Case fields "kiters" / "ktol" give max_iters / tol of the algorithm object (absent: the old defaults).
 """
 import collections
 import json
@@ -31,9 +39,26 @@ warnings.simplefilter("ignore")
 MODULE = "ColaVerif.Properties.C09"
 DRIVER = "DriverC09.lean"
 
-# ---- no provisional clauses: the recorded findings come from /verif/known_findings.json (common.known_clauses).
+# ---- provisional clauses (the other recorded findings come from /verif/known_findings.json, common.known_clauses).
 # The earlier clauses krylov-zero-mask and pow-neg-one-krylov-alg were repaired in /repo (a523921, 57e439f).
-PROVISIONAL_KNOWN = {}
+# krylov-batch-unequal-exhaustion is the recorded C15 / C14 defect (breakdownNotMasked, batch-member-breakdown) surfacing
+# through C09; it is only ever applied to a batch of the sub-stream early-batch-unequal whose columns, run one by one
+# through the same call, are ALL right (Engine.unequal_batch).
+PROVISIONAL_KNOWN = {
+    "krylov-batch-unequal-exhaustion":
+        "f(A, Arnoldi | Lanczos) @ X for a batch X whose columns exhaust their Krylov spaces at different steps: the batched loops keep stepping the finished "
+        "member and amplify its rounding-level residual (cola/linalg/decompositions/arnoldi.py arnoldi_fact cond_fun/body_fun: xnp.any over the batch; "
+        "new_vec /= clip(norm, tol/2); cola/linalg/decompositions/lanczos.py lanczos_fact cond_fun/body_fun: xnp.any over the batch; V[..., i] / update), so the "
+        "column is wrong although the same call on that column alone is right; witness: pow(Dense([[1,1,0,0],[0,2,1,0],[0,0,3,1],[0,0,0,4]]), -2, "
+        "Arnoldi(max_iters=4, tol=1e-7)) @ [[2,1],[1,1],[0,1],[0,1]] has first column about (-9e6, -1e8, 0, 0) instead of (1.25, 0.25, 0, 0)",
+    "kron-pow-principal-branch":
+        "pow / sqrt / isqrt of a Kronecker product with a NON-INTEGER exponent (cola/linalg/unary/unary.py `pow(A: Kronecker, alpha, alg)` = "
+        "Kronecker(pow(M, alpha) for M in A.Ms)): (a b)**alpha = a**alpha * b**alpha holds for the principal branch only while arg a + arg b stays in (-pi, pi] "
+        "(Lean: C09_kron_pow_domain / C09_kron_pow_counterexample); outside, the result is a power of A (x) B on another branch, not the principal one the "
+        "docstrings promise; witness: sqrt(Kronecker(Diagonal([-1, 1] complex), Diagonal([-1, 1] complex))).to_dense() has diagonal (-1, i, i, 1), the "
+        "principal square root of diag(1, -1, -1, 1) has (1, i, i, 1); for REAL negative factors (Kronecker(Diagonal([-1., -4.]), Diagonal([-1., -4.]))) the "
+        "result is NaN although A (x) B is positive definite",
+}
 
 EXPONENTS = [Fraction(-2), Fraction(-1), Fraction(-1, 2), Fraction(0), Fraction(1, 2), Fraction(1), Fraction(2), Fraction(3),
              Fraction(9), Fraction(10), Fraction(5, 2)]
@@ -190,7 +215,9 @@ def _poly(x):
 UFN = {"exp": np.exp, "log": np.log, "cube": _cube, "poly": _poly}
 
 
-def alg_obj(name, n, kiters=None):
+def alg_obj(name, n, kiters=None, ktol=None):
+    """the algorithm object of a case.  Old cases / replays (no "ktol"): Lanczos(max_iters=kiters or n, tol=1e-12),
+    Arnoldi(max_iters=kiters or n) as before; the early-termination stream sets both fields explicitly"""
     import cola
     from cola.linalg.decompositions.decompositions import Arnoldi, Lanczos
     if name == "auto":
@@ -200,9 +227,11 @@ def alg_obj(name, n, kiters=None):
     if name == "eig":
         return cola.linalg.Eig()
     if name == "lanczos":
-        return Lanczos(max_iters=kiters or n, tol=1e-12)
+        return Lanczos(max_iters=kiters or n, tol=1e-12 if ktol is None else float(ktol))
     if name == "arnoldi":
-        return Arnoldi(max_iters=kiters or n)
+        if ktol is None:
+            return Arnoldi(max_iters=kiters or n)
+        return Arnoldi(max_iters=kiters or n, tol=float(ktol))
     return None
 
 
@@ -210,7 +239,7 @@ def call_real(case, A):
     """the public call of the case on the operator A"""
     import cola
     L = cola.linalg
-    alg = alg_obj(case["alg"], int(A.shape[0]), case.get("kiters"))
+    alg = alg_obj(case["alg"], int(A.shape[0]), case.get("kiters"), case.get("ktol"))
     extra = () if alg is None else (alg,)
     fn = case["fn"]
     if fn == "exp":
@@ -350,7 +379,7 @@ def inv_alg(name, case=None, n=None):
     from cola.linalg.inverse.cg import CG
     from cola.linalg.inverse.gmres import GMRES
     if name in ("cg", "gmres"):
-        src = alg_obj(case["alg"], n, case.get("kiters"))
+        src = alg_obj(case["alg"], n, case.get("kiters"), case.get("ktol"))
         return (CG if name == "cg" else GMRES)(tol=src.tol, max_iters=src.max_iters, pbar=src.pbar)
     return {"auto": cola.linalg.Auto(), "cholesky": Cholesky(), "lu": LU()}[name]
 
@@ -512,8 +541,17 @@ def classify(case, ans, real):
         facts["exact"] = True
         Ce = exact_float(exact_to_np(ans["code"]))
         e1 = relerr(C, Ce)
-        if e1 > 1e-12:
+        kmodel = bool(ans.get("krylov_model"))
+        facts["krylov_model"] = kmodel
+        # (plans with a Krylov base node are evaluated in float64 through numpy's eig of the whole matrix: 1e-9 there)
+        if e1 > (1e-9 if kmodel else 1e-12):
             return "stale-model", f"float evaluation of the plan differs from the exact model value ({e1:.2e})", facts
+        if kmodel:
+            # the exact Krylov MODEL (Lean, Q p(H) e1 over Q[i]) against the real Krylov operator, on the operand
+            ek_ = relerr(Yr, Ce @ X)
+            facts["err"]["real-exact-krylov-model"] = ek_
+            if ek_ > TOL_KRYLOV:
+                return "violation", f"real differs from the exact Krylov model value by {ek_:.2e} (tolerance {TOL_KRYLOV:g})", facts
         if ans.get("spec") is not None and ans["code"] != ans["spec"] and not info["sa_shortcut"]:
             return "known?", clauses + ["exact-code-differs-from-spec"], facts
         if "D" in real:
@@ -536,11 +574,40 @@ def classify(case, ans, real):
         cl = list(facts.get("clauses") or clauses)
         if info["sa_shortcut"]:
             cl += [c for c in ans.get("op_clauses", []) if c == "scalar-times-annotated"]
+        if kron_branch_violated(case, A):
+            cl.append(BRANCH_CLAUSE)
         facts["clauses"] = cl
         return "known?", cl, facts
     if e_rs <= tol:
         return "stale-model", f"real agrees with the specification ({e_rs:.2e}) but not with the evaluated plan ({e_rc:.2e})", facts
     return "violation", f"real differs from the evaluated plan by {e_rc:.2e} and from f(A) by {e_rs:.2e} (tolerance {tol:g})", facts
+
+
+BRANCH_CLAUSE = "kron-pow-principal-branch"
+
+
+def kron_branch_violated(case, A):
+    """the decidable domain predicate of the Kronecker rule of pow (Lean: MatFun.ArgSumOK, theorem C09_kron_pow_domain):
+    True iff the call is pow / sqrt / isqrt with a NON-INTEGER exponent on a Kronecker product and some eigenvalues a, b of
+    two different members have arg a + arg b outside (-pi, pi] (with a margin: a sum within 1e-6 of the boundary is not
+    decided here and does not get the clause)."""
+    fn = case["fn"]
+    if fn not in ("pow", "sqrt", "isqrt"):
+        return False
+    al = frac(case["alpha"]) if fn == "pow" else Fraction(1, 2)
+    if al.denominator == 1 or core_kind(A) != "kron":
+        return False
+    import itertools
+    specs = [np.linalg.eigvals(np.asarray(M.to_dense()).astype(np.complex128)) for M in A.Ms]
+    # left fold: the spectrum of M1 (x) ... (x) Mk is the set of products; the rule is applied to all members at once,
+    # (a1 ... ak)**al = a1**al ... ak**al needs the running sum of arguments to stay in (-pi, pi]
+    for combo in itertools.product(*specs):
+        if any(abs(z) < 1e-12 for z in combo):
+            continue
+        tot = sum(np.angle(z) for z in combo)
+        if tot > np.pi + 1e-6 or tot <= -np.pi - 1e-6:
+            return True
+    return False
 
 
 # ------------------------------------------------------------------------------------------------ generator
@@ -944,6 +1011,25 @@ def krylov_iters_inv(e):
     return sizes.pop() if len(sizes) == 1 else None
 
 
+def kron_zero_column_risk(e, c, cls):
+    """the members of a Kronecker product act on RESHAPED slices of the operand: an iterative member (Krylov operator, or
+    inv through CG / GMRES) can be handed a ZERO column -- by a singular structured co-member (f(0) = 0 for positive powers),
+    or by the reshape of an operand with zero entries -- and 0/0 in the start-vector normalisation gives NaN (the IEEE-only
+    behaviour this harness keeps out of all streams, see int_operand; recorded for C07 as krylov-blockdiag-zero-probe).
+    Found by the thorough tier: pow(Kronecker(Diagonal([0, 1.7]), SelfAdjoint(Dense)), 10, Lanczos(2)) and
+    pow(Kronecker(T(Diagonal), T(Diagonal)), -1, Arnoldi(4)) with an integer operand."""
+    y = e
+    while y[0] == "ann":
+        y = y[2]
+    if y[0] != "kron" or c["fn"] not in ("pow", "sqrt", "isqrt"):
+        return False
+    if cls == "spsd":
+        return True
+    if c["fn"] == "pow" and frac(c["alpha"]) == -1:
+        return any(inv_base_leaves(m) for m in y[1:])
+    return cls == "exact"       # integer operands have zero entries: a reshaped slice may vanish
+
+
 def admissible(cls, fn, alpha, ufn):
     """is the spectrum class inside the function's domain (principal branch, finite values)?"""
     if cls == "spsd":
@@ -1007,6 +1093,8 @@ def gen_cases(ctx, rng, nprng, n_trees):
                 if c["fn"] == "pow" and frac(c["alpha"]) == -1 and e[0] != "kron":
                     # inv through CG / GMRES (a unimodular integer leaf is defective: Krylov breakdown, C12/C13 matter)
                     ki = None if (cls == "exact" and has_ring_only_leaf(e)) else krylov_iters_inv(e)
+                if kron_zero_column_risk(e, c, cls):
+                    ki = None
                 if ki is None and not shortcut:
                     c["alg"] = rng.choice(["none", "auto", "eig"])
                 elif ki is not None:
@@ -1014,6 +1102,407 @@ def gen_cases(ctx, rng, nprng, n_trees):
             cases.append(c)
     for i, c in enumerate(cases):
         c["id"] = i
+    return cases
+
+
+# ------------------------------------------------------------------------------------------------ early termination stream
+# Krylov paths whose Krylov space is EXHAUSTED after m < n steps (invariant-subspace breakdown), with explicit algorithm
+# objects Arnoldi(max_iters, tol) / Lanczos(max_iters, tol).  In exact arithmetic such a run gives exactly f(A) v (the
+# theorem's hypothesis "complete factorisation A Q = Q T" holds on the invariant subspace), so the expected value is the
+# same f(A) X as for the runs to the full dimension; the tolerance stays TOL_KRYLOV.
+EARLY_TOLS = [1e-7, 1e-10, 1e-12]
+EARLY_GUARD = 100.0      # the exhaustion residual must be below tol / EARLY_GUARD (relative to the first residual) ...
+EARLY_LIVE = 1e-4        # ... and every residual before the exhaustion step above EARLY_LIVE: 1000 x the largest tolerance
+EARLY_UNEQUAL = "early-batch-unequal"
+EARLY_STREAMS = ["early-few-distinct", "early-invariant-subspace", "early-batch-equal", EARLY_UNEQUAL, "early-exact-padding"]
+EARLY_WEIGHTS = [30, 25, 15, 15, 15]
+BATCH_CLAUSE = "krylov-batch-unequal-exhaustion"
+
+
+def krylov_profile(M, x, herm):
+    """independent float64 model of the step norms of the Krylov recurrences (modified Gram-Schmidt Arnoldi; twice
+    re-orthogonalised for the Hermitian / Lanczos case): [r_1 / r_1, r_2 / r_1, ...] with r_j the norm of the residual
+    after step j -- the quantities cola's RELATIVE stopping tests look at (arnoldi_fact: norm > tol * H[1, 0];
+    lanczos_fact: subdiag[i - 1] > tol * subdiag[1]).  Stops at an exactly zero residual."""
+    n = M.shape[0]
+    dt = np.promote_types(M.dtype, x.dtype)
+    Q = np.zeros((n, n + 1), dtype=dt)
+    Q[:, 0] = x / np.linalg.norm(x)
+    r = []
+    for j in range(n):
+        w = M @ Q[:, j]
+        for _ in range(2 if herm else 1):
+            for i in range(j + 1):
+                w = w - (np.conj(Q[:, i]) @ w) * Q[:, i]
+        nr = float(np.linalg.norm(w))
+        r.append(nr)
+        if nr == 0.0:
+            break
+        Q[:, j + 1] = w / nr
+    if r[0] == 0.0:
+        return [0.0]
+    return [v / r[0] for v in r]
+
+
+def early_admissible_tols(M, X, steps, herm, nprng, exact=False):
+    """the tolerances of EARLY_TOLS at which the exhaustion of EVERY column (column j after steps[j] steps) is visible to
+    cola's relative stopping test with a margin, according to the independent model `krylov_profile`: the residual at
+    the exhaustion step is rounding noise (about eps x an amplification that grows when the eigenvalues involved are
+    close), so it must lie below tol / EARLY_GUARD in three noise realisations (the operand and two one-ulp perturbations
+    of it), and no earlier residual may come near any tolerance (no premature stop, which would be a TRUNCATED run whose
+    convergence the property does not claim).  `exact`: the residual must be exactly 0.0 (exact-padding sub-stream)."""
+    n = M.shape[0]
+    worst = 0.0
+    for j, m in enumerate(steps):
+        for rep in range(1 if exact else 3):
+            x = X[:, j] if rep == 0 else X[:, j] * (1.0 + 2.2e-16 * nprng.standard_normal(n))
+            prof = krylov_profile(M, x, herm)
+            if len(prof) < min(m, n) or any(v < EARLY_LIVE for v in prof[1:m - 1]):
+                return []
+            if m < n:
+                if exact and not (len(prof) == m and prof[m - 1] == 0.0):
+                    return []
+                worst = max(worst, prof[m - 1])
+    return [t for t in EARLY_TOLS if worst <= t / EARLY_GUARD]
+
+
+def early_function(rng, allow_inv):
+    """(fn, alpha): >= 60 % on the functions that are singular at 0 (log, isqrt, pow -2), where a spurious zero Ritz value
+    of a badly trimmed buffer shows as inf / NaN"""
+    r = rng.random()
+    for (p, fn, al) in [(0.25, "log", None), (0.45, "isqrt", None), (0.66, "pow", Fraction(-2)), (0.76, "pow", Fraction(-1, 2)), (0.82, "sqrt", None),
+                        (0.88, "exp", None), (0.94, "pow", Fraction(5, 2)), (1.01, "pow", Fraction(-1))]:
+        if r < p:
+            break
+    if fn == "pow" and al == -1 and not allow_inv:
+        fn, al = "log", None
+    return fn, al
+
+
+class EarlyGen:
+    """cases of the early-termination stream (sub-streams EARLY_STREAMS); every case carries "stream", "kiters", "ktol",
+    "kcap" (how max_iters was chosen) and "exhaust" (the step at which the Krylov space of each column is exhausted)"""
+
+    def __init__(self, rng, nprng):
+        self.rng = rng
+        self.np = nprng
+        self.G = Gen9(rng, nprng)
+
+    def xrows(self, X):
+        if np.iscomplexobj(X):
+            return [[[float(z.real), float(z.imag)] for z in row] for row in X], "c128"
+        return [[float(z) for z in row] for row in X], "f64"
+
+    def spread(self, lam, k, gap):
+        """k indices whose eigenvalues are pairwise at least `gap` apart (close eigenvalues amplify the rounding noise of
+        the exhaustion residual), or None"""
+        n = len(lam)
+        for _ in range(40):
+            idx = self.rng.sample(range(n), k)
+            if all(abs(lam[i] - lam[j]) >= gap for a, i in enumerate(idx) for j in idx[a + 1:]):
+                return idx
+        return None
+
+    def combo(self, V, idx, cplx):
+        """combination of the eigenvectors V[:, idx]: coefficients of magnitude in [0.5, 2], random sign (random phase for a
+        complex operand)"""
+        rng = self.rng
+        co = []
+        for _ in idx:
+            m = 0.5 + 1.5 * rng.random()
+            co.append(m * np.exp(2j * np.pi * rng.random()) if cplx else m * rng.choice([-1.0, 1.0]))
+        return V[:, idx] @ np.array(co)
+
+    def generic(self, n, cplx):
+        x = self.np.standard_normal(n)
+        return x + 1j * self.np.standard_normal(n) if cplx else x
+
+    def finish(self, stream, e, M, X, vec, steps, herm, alg, fn, al, exact=False):
+        rng = self.rng
+        n = M.shape[0]
+        tols = early_admissible_tols(M, X, steps, herm and alg == "lanczos", self.np, exact)
+        if not tols:
+            return None
+        m = max(steps)
+        caps = [("n", n), ("n+3", n + 3)] + ([("m+1", m + 1)] * 2 if m < n else [])       # always > the exhaustion step
+        kcap, kiters = rng.choice(caps)
+        rows, xdt = self.xrows(X)
+        c = {"op": e, "fn": fn, "cls": "early", "stream": stream, "alg": alg, "kiters": kiters, "ktol": rng.choice(tols), "kcap": kcap,
+             "exhaust": [int(s) for s in steps], "x": rows, "vec": bool(vec), "xdt": xdt}
+        if fn == "pow":
+            c["alpha"] = {"q": [al.numerator, al.denominator]}
+            c["alpha_int"] = rng.random() < 0.5
+        return c
+
+    def case(self, stream):
+        rng = self.rng
+        if stream == "early-exact-padding":
+            return self.exact_padding_case(stream)
+        n = rng.randint(4, 9)
+        alg = "arnoldi" if rng.random() < 0.55 else "lanczos"
+        herm = alg == "lanczos" or rng.random() < 0.2
+        cplx = rng.random() < 0.3
+        V = self.G.unitary(n, cplx) if herm else self.G.wellcond(n, cplx)
+        few = stream == "early-few-distinct" or (stream == "early-batch-equal" and rng.random() < 0.5)
+        if few:
+            # 2..4 distinct, well separated eigenvalues, every one present, never a single distinct value
+            d = rng.randint(2, min(4, n - 1))
+            vals = [float(v) for v in self.G.eigs_pd(d, 0.7, 3.5)]
+            lam = vals + [rng.choice(vals) for _ in range(n - d)]
+            rng.shuffle(lam)
+        else:
+            lam = [float(v) for v in self.G.eigs_pd(n, 0.7, 3.5)]
+        lam = np.array(lam)
+        if herm:
+            A = (V * lam) @ V.conj().T
+            A = (A + A.conj().T) / 2
+        else:
+            A = (V * lam) @ np.linalg.inv(V)
+        M = np.array(A) if cplx else np.array(np.real(A))
+        xc = (rng.random() < 0.6) if cplx else (rng.random() < 0.1)       # complex operand (on a real operator: promoted buffers)
+        single = stream in ("early-few-distinct", "early-invariant-subspace")
+        fn, al = early_function(rng, allow_inv=single)
+        if stream == "early-few-distinct":
+            cols, steps = [self.generic(n, xc)], [d]
+        elif stream == "early-invariant-subspace":
+            k = rng.choice([2, 3])
+            idx = self.spread(lam, k, 0.5)
+            if idx is None:
+                return None
+            cols, steps = [self.combo(V, idx, xc)], [k]
+        elif stream == "early-batch-equal":
+            ncols = rng.randint(2, 3)
+            if few:
+                cols, steps = [self.generic(n, xc) for _ in range(ncols)], [d] * ncols
+            else:
+                k = rng.choice([2, 3])
+                sets = []
+                for _ in range(ncols):
+                    idx = self.spread(lam, k, 0.5)
+                    if idx is None or sorted(idx) in sets:
+                        return None
+                    sets.append(sorted(idx))
+                cols, steps = [self.combo(V, s, xc) for s in sets], [k] * ncols
+        else:
+            # members that stop at DIFFERENT steps: one column in a 2- or 3-dimensional invariant subspace, the others generic
+            # (exhausted at n) or in a larger invariant subspace (then the whole run still terminates early)
+            k1 = rng.choice([2, 2, 3])
+            kinds_ = [k1]
+            for _ in range(rng.randint(1, 2)):
+                kinds_.append(n if rng.random() < 0.5 or k1 + 1 > min(5, n - 1) else rng.randint(k1 + 1, min(5, n - 1)))
+            rng.shuffle(kinds_)
+            cols, steps = [], []
+            for k in kinds_:
+                if k == n:
+                    cols.append(self.generic(n, xc))
+                else:
+                    idx = self.spread(lam, k, 0.5 if k <= 3 else 0.35)
+                    if idx is None:
+                        return None
+                    cols.append(self.combo(V, idx, xc))
+                steps.append(k)
+        X = np.stack(cols, axis=1)
+        if not xc:
+            X = np.real(X)
+        vec = X.shape[1] == 1 and rng.random() < 0.5
+        e = ["dense", "c128" if cplx else "f64", n, n, self.G.rows(A, cplx)]
+        inv_call = fn == "pow" and al == -1
+        if alg == "lanczos":
+            e = ["ann", "PSD" if (inv_call or rng.random() < 0.5) else "SelfAdjoint", e]      # pow -1 goes to CG, which asserts PSD
+        elif herm and rng.random() < 0.5:
+            e = ["ann", rng.choice(["PSD", "SelfAdjoint"]), e]
+        return self.finish(stream, e, M, X, vec, steps, herm, alg, fn, al)
+
+    def exact_padding_case(self, stream):
+        """batch members that stop at different steps with EXACTLY zero residual: a dense block diagonal matrix with
+        tridiagonal blocks of dyadic entries (positive sub- and super-diagonal, strictly diagonally dominant: real
+        spectrum >= 1/2) and scaled first / last canonical vectors of blocks of different sizes as columns.  Arnoldi from
+        such a vector walks through the canonical vectors of its block in exact arithmetic (every product, projection and
+        norm is exact), the residual at the end of the block is exactly 0, the finished member keeps exact zero padding
+        while the others go on, and the padding must not contribute (f(0) * 0).  Arnoldi only: the batched Lanczos loop
+        divides the finished member by its zero norm (recorded finding C14 batch-member-breakdown)."""
+        rng = self.rng
+        sizes = [rng.randint(2, 4) for _ in range(rng.randint(2, 3))]
+        if len(set(sizes)) == 1:
+            sizes[rng.randrange(len(sizes))] = sizes[0] % 3 + 2
+        n = sum(sizes)
+        sym = rng.random() < 0.5
+        M = np.zeros((n, n))
+        offs, o = [], 0
+        for s in sizes:
+            for i in range(s):
+                M[o + i, o + i] = rng.choice([2.5, 2.75, 3.0, 3.25, 3.5, 3.75, 4.0, 4.25, 4.5])
+                if i + 1 < s:
+                    b = rng.choice([0.5, 1.0])
+                    M[o + i + 1, o + i] = b
+                    M[o + i, o + i + 1] = b if sym else rng.choice([0.25, 0.5, 1.0])
+            offs.append(o)
+            o += s
+        w = np.sort(np.linalg.eigvals(M).real)
+        if np.min(np.diff(w)) < 0.05:          # the reference is evaluated through numpy's eig: keep the spectrum simple
+            return None
+        blocks = list(range(len(sizes)))
+        if len(blocks) == 3 and rng.random() < 0.4:
+            drop = rng.choice(blocks)
+            rest = [b for b in blocks if b != drop]
+            if sizes[rest[0]] != sizes[rest[1]]:
+                blocks = rest
+        rng.shuffle(blocks)
+        X = np.zeros((n, len(blocks)))
+        for j, b in enumerate(blocks):
+            X[offs[b] + (0 if rng.random() < 0.6 else sizes[b] - 1), j] = rng.choice([1.0, 2.0, -1.0, 0.5, -1.5])
+        steps = [sizes[b] for b in blocks]
+        fn, al = early_function(rng, allow_inv=False)
+        e = ["dense", "f64", n, n, [[float(v) for v in row] for row in M]]
+        if sym and rng.random() < 0.4:
+            e = ["ann", rng.choice(["PSD", "SelfAdjoint"]), e]
+        return self.finish(stream, e, M, X, False, steps, False, "arnoldi", fn, al, exact=True)
+
+
+def gen_early_cases(ctx, rng, nprng, n_cases):
+    """the early-termination stream: `n_cases` cases over the sub-streams EARLY_STREAMS (a candidate whose exhaustion the
+    model does not see with the required margin at any tolerance is dropped and redrawn)"""
+    EG = EarlyGen(rng, nprng)
+    cases = []
+    for _ in range(n_cases):
+        stream = rng.choices(EARLY_STREAMS, weights=EARLY_WEIGHTS)[0]
+        for _attempt in range(60):
+            c = EG.case(stream)
+            if c is not None:
+                cases.append(c)
+                break
+    return cases
+
+
+# ------------------------------------------------------------------------------------------------ branch-domain stream
+def gen_branch_cases(ctx, rng, nprng, n_cases):
+    """pow / sqrt / isqrt of a Kronecker product of COMPLEX factors, inside and OUTSIDE the domain of the rule
+    (a b)**alpha = a**alpha b**alpha (principal branch: arg a + arg b in (-pi, pi], Lean `MatFun.ArgSumOK`).  Inside, the
+    result must be the principal power of the Kronecker product; outside, cola returns another branch: real = rule model,
+    both differ from the principal f(A (x) B) -> provisional clause kron-pow-principal-branch (the clause is attached by the
+    decidable predicate `kron_branch_violated`, never by the outcome).  Arguments are kept >= 0.12 rad away from the cut
+    and argument sums >= 0.12 rad away from +-pi, so that rounding cannot move an eigenvalue across the branch cut."""
+    G = Gen9(rng, nprng)
+    cases = []
+    angles = [0.0, 0.3, -0.3, 0.55, -0.55, 0.8, -0.8, 0.92, -0.92]          # in units of pi
+
+    def spectrum(k, ang_pool):
+        lam = []
+        for _ in range(k):
+            r = 0.6 + 2.4 * rng.random()
+            lam.append(r * np.exp(1j * np.pi * rng.choice(ang_pool)))
+        return np.array(lam)
+
+    def sums_ok(specs):
+        import itertools
+        for combo in itertools.product(*specs):
+            tot = sum(np.angle(z) for z in combo)
+            for b in (np.pi, -np.pi, 3 * np.pi, -3 * np.pi):
+                if abs(tot - b) < 0.12:
+                    return False
+        return True
+
+    tries = 0
+    while len(cases) < n_cases and tries < 40 * n_cases:
+        tries += 1
+        nf = rng.choice([2, 2, 2, 3])
+        sizes = [rng.choice([2, 2, 3]) for _ in range(nf)]
+        if int(np.prod(sizes)) > 12:
+            continue
+        inside = rng.random() < 0.35
+        pool = [0.0, 0.3, -0.3] if inside else angles
+        specs = [spectrum(k, pool) for k in sizes]
+        if not sums_ok(specs):
+            continue
+        members = []
+        for k, lam in zip(sizes, specs):
+            if rng.random() < 0.5:
+                members.append(["diag", "c128", [[float(z.real), float(z.imag)] for z in lam]])
+            else:
+                Q = G.unitary(k, True)
+                Mx = (Q * lam) @ Q.conj().T
+                members.append(["dense", "c128", k, k, G.rows(Mx, True)])
+        e = ["kron"] + members
+        n = int(np.prod(sizes))
+        fn = rng.choice(["sqrt", "isqrt", "pow", "pow", "pow"])
+        c = {"op": e, "fn": fn, "cls": "branch", "stream": "branch-" + ("inside" if inside else "mixed"), "alg": rng.choice(["none", "auto", "eig"])}
+        if fn == "pow":
+            al = rng.choice([Fraction(5, 2), Fraction(-1, 2), Fraction(1, 2), Fraction(-2), Fraction(10)])
+            c["alpha"] = {"q": [al.numerator, al.denominator]}
+            c["alpha_int"] = True
+        X, vec, xdt = G.operand(n, True)
+        c.update({"x": X, "vec": vec, "xdt": xdt})
+        cases.append(c)
+    # exact Gaussian-integer witnesses (the Lean counter-example and its neighbours)
+    for d1, d2, fn in [([-1, 1], [-1, 1], "sqrt"), ([[0, 1], 2], [[0, 1], 3], "sqrt"), ([-1, [0, 2]], [[0, 1], 1], "isqrt"),
+                       ([[-1, 1], 2], [[-1, 1], 1], "sqrt")]:
+        cases.append({"op": ["kron", ["diag", "c128", d1], ["diag", "c128", d2]], "fn": fn, "cls": "branch", "stream": "branch-exact", "alg": "none",
+                      "x": [[1.0], [2.0], [-1.0], [0.5]], "vec": True, "xdt": "f64"})
+    return cases
+
+
+# ------------------------------------------------------------------------------------------------ exact Krylov-model stream
+def gen_krylov_exact_cases(ctx, rng, nprng, n_cases):
+    """Krylov base cases whose value the Lean driver computes by the EXACT Krylov model (un-normalised Lanczos / Arnoldi
+    recurrence over Q[i], `A Q = Q H` re-checked, Q p(H) e1): integer Dense leaves that are diagonalisable with well
+    separated eigenvalues and well conditioned eigenvectors, POLYNOMIAL functions (cube, x^2 + 1, x ** 10), explicit
+    Lanczos / Arnoldi objects run to the full dimension, integer operands without zero block.  Three values: real (cola's
+    float Krylov operator), code (exact Krylov model), spec (exact polynomial of the matrix); code == spec exactly."""
+    cases = []
+    tries = 0
+    while len(cases) < n_cases and tries < 60 * n_cases:
+        tries += 1
+        n = rng.randint(3, 6)
+        sym = rng.random() < 0.55
+        if sym:
+            M = np.zeros((n, n), dtype=np.int64)
+            d = rng.sample(range(1, 2 * n + 3), n)
+            for i in range(n):
+                M[i, i] = d[i]
+            for i in range(n - 1):
+                M[i, i + 1] = M[i + 1, i] = rng.choice([1, 1, -1, 2])
+            if rng.random() < 0.4 and n > 2:
+                i, j = rng.sample(range(n), 2)
+                if abs(i - j) > 1:
+                    M[i, j] = M[j, i] = rng.choice([1, -1])
+        else:
+            M = np.zeros((n, n), dtype=np.int64)
+            d = rng.sample(range(1, 2 * n + 3), n)
+            for i in range(n):
+                M[i, i] = d[i]
+                for j in range(i + 1, n):
+                    if rng.random() < 0.5:
+                        M[i, j] = rng.choice([1, -1, 2])
+            if rng.random() < 0.5:
+                M = M.T.copy()
+        w, V = np.linalg.eig(M.astype(float))
+        gaps = np.abs(w[:, None] - w[None, :]) + 10 * np.eye(n)
+        if np.min(gaps) < 0.4 or np.linalg.cond(V) > 30 or np.max(np.abs(w.imag)) > 0:
+            continue
+        leaf = ["dense", "f64", n, n, [[int(v) for v in row] for row in M]]
+        alg = "arnoldi"
+        if sym:
+            pd = np.min(w.real) > 0
+            leaf = ["ann", "PSD" if (pd and rng.random() < 0.5) else "SelfAdjoint", leaf]
+            alg = rng.choice(["lanczos", "lanczos", "arnoldi"])
+        shape = rng.choice(["leaf", "leaf", "bdiag", "T"])
+        if shape == "leaf":
+            e, N = leaf, n
+        elif shape == "T":
+            # (no composite below the Transpose: the action of Transpose(KrylovOperator) goes through the shim's linear_transpose)
+            e, N = leaf, n
+        else:
+            m = rng.choice([1, 2])
+            e, N = ["bdiag", [leaf, ["diag", "f64", [rng.choice([1, 2, 3]) for _ in range(2)]]], [m, 1]], m * n + 2
+        fn = rng.choice(["cube", "poly", "pow10"])
+        c = {"op": e, "cls": "krylov-exact", "stream": "krylov-exact", "alg": alg, "kiters": n, "ktol": 1e-12}
+        if fn == "pow10":
+            c.update({"fn": "pow", "alpha": {"q": [10, 1]}, "alpha_int": rng.random() < 0.5})
+        else:
+            c.update({"fn": "apply", "ufn": fn})
+        X = [[rng.choice([-2, -1, 1, 2, 3])] for _ in range(N)]
+        c.update({"x": X, "vec": True, "xdt": "f64"})
+        cases.append(c)
     return cases
 
 
@@ -1041,10 +1530,13 @@ class Engine:
         for k, v in common.known_clauses(ctx.prop).items():
             self.known[k] = v["what"]
         self.stats = collections.Counter()
-        self.dist = {k: collections.Counter() for k in ("fn", "alg", "cls", "alpha", "plan_root", "bases", "n", "cols", "depth", "clauses", "powplan")}
+        self.dist = {k: collections.Counter() for k in ("fn", "alg", "cls", "alpha", "plan_root", "bases", "n", "cols", "depth", "clauses", "powplan",
+                                                       "stream", "early_stop", "early_alg_tol", "early_cap", "early_fn")}
         self.distinct = set()
         self.samples = []
+        self.early_samples = {}
         self.maxerr = {"dense": 0.0, "krylov": 0.0}
+        self.maxerr_stream = {}
 
     def evaluate(self, cases):
         ans = oracle.run_driver([driver_case(c) for c in cases], driver=DRIVER)
@@ -1056,8 +1548,39 @@ class Engine:
                 st, det, facts = classify(c, a, real)
             except Exception as ex:  # noqa: BLE001  (reference computation failed: out-of-domain input of the generator)
                 st, det, facts = "skipped", f"oracle failed: {type(ex).__name__}: {str(ex)[:100]}", {"clauses": []}
+            if c.get("stream"):
+                facts["steps"] = krylov_steps(real)
+            if st == "violation" and c.get("stream") == EARLY_UNEQUAL and "Y" in real:
+                st, det, facts = self.unequal_batch(c, a, st, det, facts)
             out.append((c, a, real, st, det, facts))
         return out
+
+    def unequal_batch(self, c, a, st, det, facts):
+        """a batch of the sub-stream `early-batch-unequal` came out wrong: re-run the SAME call column by column (each column
+        as its own 1-D operand).  Only if every single-column result is right (same classification, same tolerance) the
+        batching is the cause -- cola's batched Arnoldi / Lanczos loops keep stepping a member whose Krylov space is
+        exhausted (recorded for C15 / C14: breakdownNotMasked, batch-member-breakdown) -- and the case is reported through
+        the clause BATCH_CLAUSE; otherwise it stays an ordinary violation."""
+        ncols = len(c["x"][0])
+        if c.get("vec") or ncols < 2:
+            return st, det, facts
+        errs = []
+        for j in range(ncols):
+            cj = dict(c)
+            cj["x"] = [[row[j]] for row in c["x"]]
+            cj["vec"] = True
+            rj = run_real(cj)
+            try:
+                sj, dj, fj = classify(cj, a, rj)
+            except Exception as ex:  # noqa: BLE001
+                sj, dj, fj = "skipped", f"{type(ex).__name__}", {}
+            if sj != "ok":
+                return st, f"{det}; column {j} alone: {sj} ({str(dj)[:160]})", facts
+            errs.append(fj["err"]["real-spec"])
+        facts = dict(facts)
+        facts["clauses"] = [BATCH_CLAUSE]
+        facts["columnwise"] = errs
+        return "known?", [BATCH_CLAUSE], facts
 
     def nontrivial(self, c, a):
         return depth_of(c["op"]) >= 1 or c["op"][0] in ("dense", "ann") or (a.get("plan") or ["?"])[0] in ("base", "product", "inv")
@@ -1065,7 +1588,7 @@ class Engine:
     def account(self, c, a, real, st, det, facts):
         ctx = self.ctx
         self.stats["evaluations"] += 1
-        self.stats[st if st != "known?" else "code!=spec"] += 1
+        self.stats[st if st != "known?" else ("batch-defect(columns alone are right)" if "columnwise" in facts else "code!=spec")] += 1
         if st in ("ok", "known?"):
             key = common.canon([c["op"], c["fn"], c.get("alpha"), c.get("ufn"), c["alg"], c["x"], c.get("vec")])
             if self.nontrivial(c, a):
@@ -1087,6 +1610,24 @@ class Engine:
                 self.maxerr[k] = max(self.maxerr[k], facts["err"]["real-spec"] if st == "ok" else 0.0)
             if facts.get("exact"):
                 self.stats["exact-compared"] += 1
+            if facts.get("krylov_model"):
+                self.stats["exact-krylov-model-compared"] += 1
+                self.maxerr["real-vs-exact-krylov-model"] = max(self.maxerr.get("real-vs-exact-krylov-model", 0.0),
+                                                                (facts.get("err") or {}).get("real-exact-krylov-model", 0.0))
+            if c.get("stream"):
+                sm = c["stream"]
+                self.dist["stream"][sm] += 1
+                self.dist["early_alg_tol"][f"{c['alg']}:{c.get('ktol')}"] += 1
+                self.dist["early_cap"][str(c.get("kcap"))] += 1
+                self.dist["early_fn"][c["fn"] + (":" + str(frac(c["alpha"])) if "alpha" in c else "")] += 1
+                steps = facts.get("steps")
+                if steps is not None:
+                    cap = min(int(c.get("kiters") or a.get("rows") or 0), int(a.get("rows") or 0))
+                    self.dist["early_stop"][sm + (":stopped-before-the-cap" if steps < cap else ":ran-to-the-cap")] += 1
+                if st == "ok" and "err" in facts:
+                    self.maxerr_stream[sm] = max(self.maxerr_stream.get(sm, 0.0), facts["err"]["real-spec"])
+                    if sm not in self.early_samples and len(json.dumps(c)) < 2500:
+                        self.early_samples[sm] = {"case": {k: v for k, v in c.items()}, "plan": a.get("plan"), "errors": facts.get("err"), "steps_executed": steps}
         if st == "ok" and len(self.samples) < 4 and self.nontrivial(c, a) and len(json.dumps(c)) < 1500:
             self.samples.append({"case": {k: v for k, v in c.items()}, "plan": a.get("plan"), "errors": facts.get("err")})
         if st in ("violation", "stale-model") and len(ctx.violations) >= 5:
@@ -1189,10 +1730,25 @@ class Engine:
             "outcomes": dict(self.stats),
             "distributions": {k: dict(v) for k, v in self.dist.items()},
             "max_relative_error_ok_cases": self.maxerr,
-            "samples": self.samples,
-            "compare": "relative max-norm error of F @ X against scipy's f(A) @ X: 1e-7 (dense paths), 1e-5 (Krylov paths run to the full dimension); "
+            "max_relative_error_ok_cases_early_streams": self.maxerr_stream,
+            "samples": self.samples + list(self.early_samples.values())[:2],
+            "compare": "relative max-norm error of F @ X against scipy's f(A) @ X: 1e-7 (dense paths), 1e-5 (Krylov paths run to the full dimension or to the "
+                       "exhaustion of the Krylov space of the operand); "
                        "exact comparison of to_dense() with the Lean value on the exact-arithmetic subset; kind tree of the result = the model's plan",
         }
+
+
+def krylov_steps(real):
+    """number of Krylov steps the returned LanczosUnary / ArnoldiUnary executed in its last product (info['iterations'] is
+    one more), or None for other kinds of results"""
+    F = real.get("F")
+    info = getattr(F, "info", None)
+    if isinstance(info, dict) and "iterations" in info:
+        try:
+            return int(info["iterations"]) - 1
+        except Exception:  # noqa: BLE001
+            return None
+    return None
 
 
 def replay_payload(c, a, real, det, facts):
@@ -1201,7 +1757,7 @@ def replay_payload(c, a, real, det, facts):
         Y = np.asarray(real["Y"])
         r["Y"] = [[float(np.real(z)), float(np.imag(z))] for z in Y.reshape(-1)]
     return {"case": {k: v for k, v in c.items()}, "model": {k: a.get(k) for k in ("plan", "powplan", "raise", "clauses", "exact")},
-            "real": r, "detail": det if isinstance(det, str) else json.dumps(det), "errors": facts.get("err"),
+            "real": r, "detail": det if isinstance(det, str) else json.dumps(det), "errors": facts.get("err"), "krylov_steps_executed": facts.get("steps"),
             "replay_cmd": f"./check C09 quick --replay <this file>"}
 
 
@@ -1278,6 +1834,67 @@ def identities(ctx, rng, nprng, N):
     return dict(checked)
 
 
+def identities_early(ctx, rng, nprng, N):
+    """model-free identities on early-terminating Krylov operands (no Lean plan, no eig reference for the result): operators
+    and operands of the sub-streams early-few-distinct / early-invariant-subspace / early-batch-equal with explicit
+    Arnoldi / Lanczos objects;  sqrt(A) @ (sqrt(A) @ X) = A @ X  and  isqrt(A) @ (isqrt(A) @ (A @ X)) = X.
+    Every intermediate operand (sqrt(A) X, A X, isqrt(A) A X) lies in the same invariant subspace, so each of the
+    products terminates early; the visibility of the exhaustion (early_admissible_tols) is checked on the scipy values of
+    those intermediate operands as well.  The tolerance of the algorithm objects is 1e-7 here (cola's default for Arnoldi):
+    the second and third operand are COMPUTED (relative error up to about 1e-13), so they lie in the invariant subspace only
+    to that accuracy and their exhaustion residual is correspondingly larger than rounding level."""
+    import cola
+    EG = EarlyGen(rng, nprng)
+    checked = collections.Counter()
+    reported = 0
+    for t in range(N):
+        c = None
+        for _ in range(60):
+            c = EG.case(rng.choice(["early-few-distinct", "early-invariant-subspace", "early-batch-equal"]))
+            if c is not None:
+                break
+        if c is None:
+            continue
+        A = build.Builder().build(c["op"])
+        M = np.asarray(A.to_dense())
+        X = operand(c)
+        X2 = X[:, None] if X.ndim == 1 else X
+        herm = c["alg"] == "lanczos"
+        Ms, Mi = sl.sqrtm(M), np.linalg.inv(sl.sqrtm(M))
+        tols = {EARLY_TOLS[0]}
+        for Z in (X2, Ms @ X2, M @ X2, Mi @ (M @ X2)):
+            tols &= set(early_admissible_tols(M, np.asarray(Z), c["exhaust"], herm, nprng))
+        if not tols:
+            continue
+        ktol = rng.choice(sorted(tols))
+        case = {"op": c["op"], "alg": c["alg"], "kiters": c["kiters"], "ktol": ktol, "exhaust": c["exhaust"], "stream": c["stream"], "x": c["x"], "vec": c["vec"],
+                "xdt": c["xdt"], "cls": "early"}
+        alg = alg_obj(c["alg"], int(A.shape[0]), c["kiters"], ktol)
+        for name, fname, what in (("early:sqrt-twice", "sqrt", "sqrt(A) @ (sqrt(A) @ X) = A @ X"),
+                                  ("early:isqrt-twice-times-A", "isqrt", "isqrt(A) @ (isqrt(A) @ (A @ X)) = X")):
+            if reported >= 3:
+                break                   # three replays of this kind are enough
+            try:
+                if fname == "sqrt":
+                    F = cola.linalg.sqrt(A, alg)
+                    err = relerr(F @ (F @ X), M @ X)
+                else:
+                    F = cola.linalg.isqrt(A, alg)
+                    err = relerr(F @ (F @ (M @ X)), X)
+                detail = None
+            except Exception as ex_:  # noqa: BLE001
+                err, detail = np.inf, f"the call raised {type(ex_).__name__}: {str(ex_)[:200]}"
+            checked[name] += 1
+            steps = krylov_steps({"F": F}) if detail is None else None
+            if steps is not None and steps < min(c["kiters"], M.shape[0]):
+                checked[name + ":stopped-before-the-cap"] += 1
+            if not err <= TOL_KRYLOV:
+                reported += 1
+                common.violation(ctx, {"identity": what + " (early-terminating Krylov run)", "case": dict(case, fn=fname), "error": err, "detail": detail,
+                                       "tolerance": TOL_KRYLOV})
+    return dict(checked)
+
+
 # ------------------------------------------------------------------------------------------------ entry point
 WITNESSES = [
     # exp of a singular PSD matrix on the Krylov paths (the former zero-eigenvalue mask, repaired in a523921)
@@ -1297,6 +1914,14 @@ WITNESSES = [
     {"op": ["kronsum", ["diag", "f64", [1.0, 2.0]], ["scalar", "f64", 0.5, 2]], "fn": "exp", "alg": "none", "x": [[1.0], [2.0], [3.0], [4.0]], "vec": False, "xdt": "f64", "cls": "pd"},
     {"op": ["kron", ["diag", "f64", [1.0, 2.0]], ["scalar", "f64", 0.5, 2]], "fn": "pow", "alpha": {"q": [5, 2]}, "alg": "none", "x": [[1.0], [2.0], [3.0], [4.0]], "vec": False, "xdt": "f64", "cls": "pd"},
     {"op": ["kron", ["diag", "f64", [1.0, 2.0]], ["scalar", "f64", 0.5, 2]], "fn": "sqrt", "alg": "none", "x": [[1.0], [2.0], [3.0], [4.0]], "vec": False, "xdt": "f64", "cls": "pd"},
+    # early termination (Krylov space exhausted after 2 of 4 steps): the start vector (2,1,0,0) lies in the invariant subspace span(e1, e2)
+    {"op": ["dense", "f64", 4, 4, [[1.0, 1.0, 0.0, 0.0], [0.0, 2.0, 1.0, 0.0], [0.0, 0.0, 3.0, 1.0], [0.0, 0.0, 0.0, 4.0]]], "fn": "log", "alg": "arnoldi", "kiters": 4, "ktol": 1e-7,
+     "kcap": "n", "exhaust": [2], "stream": "early-invariant-subspace", "x": [[2.0], [1.0], [0.0], [0.0]], "vec": True, "xdt": "f64", "cls": "early"},
+    {"op": ["ann", "PSD", ["dense", "f64", 4, 4, [[2.0, 1.0, 0.0, 0.0], [1.0, 2.0, 0.0, 0.0], [0.0, 0.0, 3.0, 1.0], [0.0, 0.0, 1.0, 4.0]]]], "fn": "isqrt", "alg": "lanczos", "kiters": 4,
+     "ktol": 1e-10, "kcap": "n", "exhaust": [2], "stream": "early-invariant-subspace", "x": [[1.0], [2.0], [0.0], [0.0]], "vec": True, "xdt": "f64", "cls": "early"},
+    # the witness of the provisional clause krylov-batch-unequal-exhaustion (columns exhausted after 2 and after 4 steps)
+    {"op": ["dense", "f64", 4, 4, [[1.0, 1.0, 0.0, 0.0], [0.0, 2.0, 1.0, 0.0], [0.0, 0.0, 3.0, 1.0], [0.0, 0.0, 0.0, 4.0]]], "fn": "pow", "alpha": {"q": [-2, 1]}, "alg": "arnoldi",
+     "kiters": 4, "ktol": 1e-7, "kcap": "n", "exhaust": [2, 4], "stream": EARLY_UNEQUAL, "x": [[2.0, 1.0], [1.0, 1.0], [0.0, 1.0], [0.0, 1.0]], "vec": False, "xdt": "f64", "cls": "early"},
 ]
 
 
@@ -1329,6 +1954,16 @@ def run(ctx):
         cases = [dict(w) for w in WITNESSES]
         ntrees = 200 if not ctx.thorough else 3000
         cases += gen_cases(ctx, rng, nprng, ntrees)
+        # the early-termination stream draws from generators of its own (derived from the seed), so the streams above and the
+        # identity stream below see exactly the random sequence they saw before it existed
+        erng = random.Random(ctx.seed * 104729 + 909)
+        enprng = np.random.default_rng(ctx.seed * 7 + 909)
+        cases += gen_early_cases(ctx, erng, enprng, 160 if not ctx.thorough else 1600)
+        # round 2: the domain of the Kronecker rule for principal powers, and Krylov base cases evaluated by the exact Krylov model
+        brng = random.Random(ctx.seed * 104729 + 1709)
+        bnprng = np.random.default_rng(ctx.seed * 7 + 1709)
+        cases += gen_branch_cases(ctx, brng, bnprng, 40 if not ctx.thorough else 400)
+        cases += gen_krylov_exact_cases(ctx, brng, bnprng, 40 if not ctx.thorough else 400)
         for i, c in enumerate(cases):
             c["id"] = i
         batch = 800
@@ -1336,6 +1971,7 @@ def run(ctx):
             for r in eng.evaluate(cases[i:i + batch]):
                 eng.account(*r)
         ident = identities(ctx, rng, nprng, 30 if not ctx.thorough else 400)
+        ident.update(identities_early(ctx, erng, enprng, 24 if not ctx.thorough else 240))
     if gate_err is not None and not ctx.violations:
         common.violation(ctx, {"broken": f"Lean gate of {MODULE}", "detail": gate_err[-3000:]}, no_input=True)
     cov = eng.coverage()
@@ -1345,7 +1981,19 @@ def run(ctx):
                    "(Diagonal, ScalarMul, Identity, BlockDiag with multiplicities, Kronecker, KronSum, Transpose, Adjoint, Sum, scaled), plus exact integer / perfect-square "
                    "trees; x functions exp/log/sqrt/isqrt/pow(11 exponents)/apply_unary(4 functions) x algorithm objects {omitted, Auto, Eigh, Eig, Lanczos(n,1e-12), Arnoldi(n)} "
                    "x operands 1-D / 1-3 columns; distinct = canonical JSON of (tree, function, exponent, algorithm, operand); non-trivial = the tree has depth >= 1 or a dense leaf, "
-                   "or the plan is a base case / product / inverse")
+                   "or the plan is a base case / product / inverse; "
+                   "EARLY-TERMINATION stream (cls early, distribution `stream`): dense leaves of size 4-9 (exact-padding: 4-10) with explicit Arnoldi(max_iters, tol) / "
+                   "Lanczos(max_iters, tol), max_iters in {exhaustion step + 1, n, n + 3}, tol in {1e-7, 1e-10, 1e-12} restricted to those at which an independent float64 "
+                   "model of the recurrence sees the exhaustion with a margin of 100 (and no earlier residual below 1e-4): few-distinct (2-4 distinct eigenvalues in [0.7, 3.5], "
+                   "generic operand), invariant-subspace (simple spectrum, operand = combination of 2-3 eigenvectors with eigenvalues >= 0.5 apart, coefficients in "
+                   "[0.5, 2]), batch-equal (2-3 columns exhausted at the same step), batch-unequal (columns exhausted at different steps; a wrong batch whose columns are "
+                   "all right one by one is the provisional clause krylov-batch-unequal-exhaustion), exact-padding (block diagonal dyadic tridiagonal blocks, canonical "
+                   "start vectors: exactly zero residual and padding, Arnoldi); functions log / isqrt / pow -2 (>= 60 %), pow -1/2, sqrt, exp, pow 5/2, pow -1 (single "
+                   "column only); "
+                   "BRANCH stream (cls branch): Kronecker products of 2-3 complex Diagonal / normal Dense factors (size <= 12) with eigenvalue arguments in "
+                   "{0, +-0.3, +-0.55, +-0.8, +-0.92} pi, sqrt / isqrt / pow(5/2, -1/2, 1/2, -2, 10), 35 % inside the domain of the Kronecker rule, + 4 exact witnesses; "
+                   "KRYLOV-EXACT stream (cls krylov-exact): integer Dense leaves 3-6 (symmetric tridiagonal+ / triangular, eigenvalue gaps >= 0.4, cond V <= 30), alone or in "
+                   "a BlockDiag, cube / x^2+1 / x**10 with Lanczos(n, 1e-12) / Arnoldi(n, 1e-12), integer operand: real vs exact Krylov model vs exact spec")
     cov["provisional_known"] = PROVISIONAL_KNOWN
     cov["trusted_base_extra"] = [
         "numpy.linalg eigh/eig/inv as the parameters of the base cases when the plan is evaluated in float64 (harness/props/c09.py eval_plan); scipy.linalg expm/logm/sqrtm/fractional_matrix_power as the numerical specification",
@@ -1354,7 +2002,18 @@ def run(ctx):
         "exact arithmetic in the theorems; the dense eigensolvers and inv are parameters with contracts (A V = V D with V invertible; V unitary for eigh; B A = 1)",
         "Krylov paths: the theorem assumes a complete factorisation A Q = Q T (full Krylov dimension or invariant subspace, from C14/C15); convergence of truncated runs is not claimed",
         "numerical comparison only on spectra inside the function's domain with well-conditioned eigenvectors (generator-controlled); tolerance 1e-7 relative (1e-5 Krylov)",
-        "recorded findings come from known_findings.json only (PROVISIONAL_KNOWN is empty)"])
+        "early-termination stream: the exhaustion of the Krylov space is a floating-point event (residual at rounding level); cases are kept only when an independent "
+        "float64 model of the recurrence puts that residual a factor 100 below the tolerance of the algorithm object, single eigenvectors and operators with one distinct "
+        "eigenvalue are never generated (first-step breakdown is invisible to cola's relative test: C14 eigenvector-start-undetected, C15 breakdownNotMasked)",
+        "round 2: UnOp.SoundE (contracts only: LAPACK eigendecomposition A V = V D, Vi V = 1; complete Krylov factorisation proved for the loop models of C14 / C15 "
+        "in KrylovCompose; inv a left inverse) replaces the assumption that the oracle matrix is f(A); stream `krylov-exact`: the Lean driver evaluates Krylov base "
+        "cases with polynomial f by the exact Krylov model (Q p(H) e1 over Q[i], invariance re-checked) -- for non-polynomial f the Krylov value is SPEC-ONLY "
+        "(f(A) by numpy eig in eval_plan), compared with tolerance 1e-5",
+        "stream `branch-*`: principal powers of Kronecker products of complex factors; the clause kron-pow-principal-branch is attached by the decidable predicate "
+        "`kron_branch_violated` (argument sums of member eigenvalues outside (-pi, pi], margin 1e-6; generated spectra keep 0.12 rad distance from the cut), "
+        "Lean: C09_kron_pow_domain, C09_kron_pow_domain_witness, C09_kron_pow_counterexample",
+        "recorded findings come from known_findings.json; PROVISIONAL_KNOWN holds kron-pow-principal-branch (above) and krylov-batch-unequal-exhaustion (C15 breakdownNotMasked / C14 batch-member-breakdown "
+        "surfacing through C09), applied only to a batch with unequal exhaustion steps whose columns are all right when the same call is run on them one by one"])
     print(json.dumps({"outcomes": cov["outcomes"], "distinct_nontrivial": cov["distinct_nontrivial"], "clauses": cov["distributions"]["clauses"],
                       "identity_checks": ident, "max_err": cov["max_relative_error_ok_cases"], "gate": (gate or {}).get("obligations"), "wall_s": round(ctx.wall(), 1),
                       "notes": ctx.notes[:5]}))
